@@ -8,6 +8,7 @@ import (
 
 	"github.com/gopacket/gopacket"
 	"github.com/gopacket/gopacket/layers"
+	"github.com/gopacket/gopacket/verifhook"
 
 	"verif/sim"
 	"verif/sim/coop"
@@ -202,6 +203,7 @@ func RunC12(c *sim.Ctx, pkg *C12Pkg) {
 	}
 	finalCompletes, finalDelivers = nil, nil
 	pkg.SetHook(s.LockHook)
+	verifhook.Hook = s.AnyLockHook // lock sites without a hand-placed hook (instrumented build)
 	pkg.SetOrder(func(keys []string) []int {
 		perm := make([]int, len(keys))
 		for i := range perm {
@@ -263,6 +265,7 @@ func RunC12(c *sim.Ctx, pkg *C12Pkg) {
 	s.Run()
 	// ---- final flush, single-threaded ----
 	pkg.SetHook(nil)
+	verifhook.Hook = nil
 	closed := asms[0].FlushAll()
 	c.Ev("final_flush_all", int64(closed), int64(s.Switches))
 	c.State(s.TraceHash())
